@@ -2622,7 +2622,10 @@ func (c *RpkiValidationCondition) Type() ConditionType {
 
 func (c *RpkiValidationCondition) Evaluate(path *Path, options *PolicyOptions) bool {
 	if options != nil && options.Validate != nil {
-		return c.result == options.Validate(path).Status
+		// no verdict for families without a ROA table (and withdrawals)
+		if v := options.Validate(path); v != nil {
+			return c.result == v.Status
+		}
 	}
 	return false
 }
